@@ -94,8 +94,23 @@ fn apply_ref(op: Op2, a: &Jet, b: &Jet) -> Option<Jet> {
             // integer powers by repeated multiplication in the reference algebra (exact on the grid)
             let k = n.unsigned_abs();
             let mut acc = Jet::constant(&a.alg, ndv_oracle::R::ONE);
-            for _ in 0..k {
-                acc = acc.mul(a);
+            if k <= 16 {
+                for _ in 0..k {
+                    acc = acc.mul(a);
+                }
+            } else {
+                // square and multiply (large exponents are only generated for bases with real part +-1)
+                let mut base = a.clone();
+                let mut e = k;
+                while e > 0 {
+                    if e & 1 == 1 {
+                        acc = acc.mul(&base);
+                    }
+                    e >>= 1;
+                    if e > 0 {
+                        base = base.mul(&base);
+                    }
+                }
             }
             if n < 0 {
                 acc.recip()?
@@ -164,7 +179,9 @@ where
     };
     let kfac = K;
     // f32: only sums and products of two 4-bit factors are guaranteed to fit into 24 bits
-    let demand = grid && (!<T::F as Flt>::IS32 || matches!(op, Op2::Add | Op2::Sub | Op2::Neg | Op2::Mul));
+    // large exponents: the binomial coefficients times part products pass 2^53 in intermediates, so only
+    // the rounding bound is demanded there
+    let demand = grid && (!<T::F as Flt>::IS32 || matches!(op, Op2::Add | Op2::Sub | Op2::Neg | Op2::Mul)) && !matches!(op, Op2::Powi(n) if !(-6..=8).contains(&n));
     let c = compare::<T::F>(lay, &alg, &lf, &rf, kfac, demand, opname);
     if c.out_of_domain {
         return Verdict::Trivial("reference out of domain");
@@ -219,7 +236,15 @@ impl<'a> TyVisitor for V<'a> {
         // the exact regime is only defined on the dyadic grid: snap whatever came in (identity for
         // generated cases, makes the check total for fuzzed ones)
         let snap = |v: &Vec<f64>| -> Vec<f64> { v.iter().map(|x| if case.grid { grid_snap(*x) } else { *x }).collect() };
-        let (ra, rb) = if case.grid { (if needs_pow2_a { ra } else { grid_snap(ra) }, if needs_pow2_b { rb } else { grid_snap(rb) }) } else { (ra, rb) };
+        let (mut ra, rb) = if case.grid { (if needs_pow2_a { ra } else { grid_snap(ra) }, if needs_pow2_b { rb } else { grid_snap(rb) }) } else { (ra, rb) };
+        // large exponents: the base has real part +-1 and parts of magnitude <= 2, so that every part of
+        // the power (binomial coefficients up to n(n-1)(n-2) times products of parts) stays representable
+        let large = matches!(case.op, Op2::Powi(n) if !(-6..=8).contains(&n));
+        let snap = |v: &Vec<f64>| -> Vec<f64> { snap(v).iter().map(|x| if large { x.clamp(-2.0, 2.0) } else { *x }).collect() };
+        if large {
+            ra = if case.ra < 0.0 { -1.0 } else { 1.0 };
+            self.st.class("powi with a large exponent (base real part +-1)");
+        }
         let fa = make_flat::<T::F>(&lay, ra, &snap(&case.a), &case.pres_a, &case.zero);
         let fb = make_flat::<T::F>(&lay, rb, &snap(&case.b), &case.pres_b, &[false]);
         self.st.class(&format!("type:{}", TYPES[case.ty].name));
@@ -258,6 +283,11 @@ impl Property for C02 {
             6 => Just(Op2::Mul),
             6 => Just(Op2::Div),
             3 => (-6i32..=8).prop_map(Op2::Powi),
+            1 => (any::<bool>(), 0.0f64..1.0).prop_map(|(neg, u)| {
+                // log-uniform in 9..=60000 (n(n-1)(n-2) passes 2^31 at 1292, n(n-1) at 46342)
+                let n = (9.0 * (60000.0f64 / 9.0).powf(u)).round() as i32;
+                Op2::Powi(if neg { -n } else { n })
+            }),
             2 => Just(Op2::Recip),
         ];
         let grid_case = (
@@ -281,14 +311,14 @@ impl Property for C02 {
             return Verdict::Trivial("malformed case");
         }
         if let Op2::Powi(n) = case.op {
-            if !(-6..=8).contains(&n) {
+            if !(-60000..=60000).contains(&n) {
                 return Verdict::Trivial("malformed case");
             }
         }
         if !case.ra.is_finite() || !case.rb.is_finite() || case.a.iter().chain(&case.b).any(|x| !x.is_finite() || x.abs() > 1e3) || case.ra.abs() > 1e3 || case.rb.abs() > 1e3 {
             return Verdict::Trivial("malformed case");
         }
-        let dims = [case.dims.0 as usize, case.dims.1 as usize];
+        let dims = [case.dims.0 as usize % 7, case.dims.1 as usize % 7];
         dispatch(case.ty, &dims, V { case, st })
     }
     fn cases(tier: Tier) -> u64 {
@@ -301,7 +331,7 @@ impl Property for C02 {
         crate::c02x::exhaustive(tier, st)
     }
     fn rule() -> String {
-        "generated: (type, op in {+,-,neg,*,/,powi(n in -6..8),recip} spelled as owned, compound-assignment or borrowed-rhs form, two operands, presence pattern of every optional part); 75% of the cases draw every part from the dyadic grid k*2^-s (|k|<=8, s<=3; divisor / negative-power base real parts +-2^k) where every algebraically correct evaluation is rounding-free: there the oracle (reference algebra whose every + and * is verified exact by TwoSum/FMA residuals) must be matched BIT FOR BIT; 25% arbitrary operands compared with 32*u*e. In addition tensor grids are enumerated exhaustively for the five scalar f64 types (deg+1 points per operand part, see counters). Non-trivial: op is * or /, both operands have >= 2 non-zero derivative parts that are not multiples of each other, not ill-conditioned; distinct case fingerprints.".into()
+        "generated: (type, op in {+,-,neg,*,/,powi(n in -6..8, and log-uniform 9 <= |n| <= 60000 on bases with real part +-1),recip} spelled as owned, compound-assignment or borrowed-rhs form, two operands, presence pattern of every optional part); 75% of the cases draw every part from the dyadic grid k*2^-s (|k|<=8, s<=3; divisor / negative-power base real parts +-2^k) where every algebraically correct evaluation is rounding-free: there the oracle (reference algebra whose every + and * is verified exact by TwoSum/FMA residuals) must be matched BIT FOR BIT; 25% arbitrary operands compared with 32*u*e. In addition tensor grids are enumerated exhaustively for the five scalar f64 types (deg+1 points per operand part, see counters). Non-trivial: op is * or /, both operands have >= 2 non-zero derivative parts that are not multiples of each other, not ill-conditioned; distinct case fingerprints.".into()
     }
     fn assumptions() -> Vec<String> {
         vec![
